@@ -66,7 +66,25 @@ class Custom:
         return 7
 
 
+class MyStr(str):
+    pass
+
+
+class MyInt(int):
+    pass
+
+
+def subclass_instances(rnd):
+    """instances of SUBCLASSES of the registered base types: they belong to the default (pickle) type"""
+    import collections
+
+    return rnd.choice([collections.Counter({"a": 2, 3: 1}), collections.OrderedDict([("z", 1), ("a", [2])]),
+                       collections.defaultdict(list, {"k": [1]}), MyStr("sub"), MyInt(7), True, False])
+
+
 def picklable(rnd, depth=0):
+    if depth == 0 and rnd.random() < 0.15:
+        return subclass_instances(rnd)
     k = rnd.random()
     if depth >= 3 or k < 0.3:
         return rnd.choice([json_scalar(rnd), b"by\x00\xff", (1, "t"), frozenset([1, 2]), complex(1, 2), Custom(3), range(3), 2 ** 70])
@@ -155,7 +173,7 @@ def gen_value(rnd, tid, ext, features):
             v = json_shaped(rnd, 0)
             return v if isinstance(v, list) else [v]
         v = picklable(rnd)
-        if isinstance(v, (dict, str, bytes, int, float)) or v is None:
+        if type(v) in (dict, str, bytes, int, float) or v is None:
             v = [v]
         return v
     if tid == "dataframe":
